@@ -96,6 +96,9 @@ func workSignature(h *ssa.Function) bool {
 func runC15(c *Ctx) {
 	R := c.R
 	checkResultUsedAfterErrorTest(c)
+	// shared with C20 (R20.5): an e2e sample of 0 means "unanswered" only if the probe was sent with the TTL that reaches the
+	// destination – MinTTL = MaxTTL = the request's MaxTTL
+	checkE2eOverride(c, checkSelector(c))
 	f := c.P.Func("(traceroute.Traceroute).runTracerouteMulti")
 	if f == nil {
 		R.Fail("R15.1", "traceroute.runTracerouteMulti#anchor", 0, "", "anchor (traceroute.Traceroute).runTracerouteMulti no longer resolves")
